@@ -161,11 +161,17 @@ RECURSIVE TablesOf(_)
 TablesOf(tab) ==
   {tab.table.name} \cup UNION { IF tab.ops[i].k = "Join" THEN TablesOf(tab.ops[i].right) ELSE {} : i \in DOMAIN tab.ops }
 
-WellFormed(stmt, base) ==
+\* names the source chose itself with `as`: only generated names are promised to be unique
+RECURSIVE AsNames(_)
+AsNames(tab) ==
+  {tab.ops[i].name.name : i \in {i \in DOMAIN tab.ops : tab.ops[i].k = "As"}}
+  \cup UNION { IF tab.ops[i].k = "Join" THEN AsNames(tab.ops[i].right) ELSE {} : i \in DOMAIN tab.ops }
+
+WellFormed(stmt, base, user) ==
   LET n == Len(stmt.ctes)
       name(i) == stmt.ctes[i].name
       uses(i) == SrcNames(stmt.ctes[i].sel.from)
-  IN /\ \A i, j \in 1..n : i # j => name(i) # name(j)                               \* unique names
+  IN /\ \A i, j \in 1..n : i # j /\ name(i) = name(j) => name(i) \in user               \* generated names are unique
      /\ \A i \in 1..n : uses(i) \subseteq base \cup {name(j) : j \in 1..(i - 1)}        \* reads tables or earlier CTEs
      /\ SrcNames(stmt.main.from) \subseteq base \cup {name(j) : j \in 1..n}
      /\ \A i \in 1..n : name(i) \in SrcNames(stmt.main.from) \/ \E j \in (i + 1)..n : name(i) \in uses(j)   \* none unused
@@ -180,19 +186,19 @@ PInit == ch = <<>> /\ l = 0
 PNext == (\E x \in PlanChoices(ch) : ch' = Append(ch, x)) /\ UNCHANGED l
 
 \* tab = None: only readability and well-formedness are judged (C05)
-Judge(tab, tables, toks, dbs) ==
+Judge(tab, tables, user, toks, dbs) ==
   LET st == ReadStmt(toks, "ch")
       stp == ReadStmt(toks, "pg")
   IN IF ~st.ok \/ ~stp.ok THEN [status |-> "unreadable", db |-> <<>>]
      ELSE IF stp.v # st.v THEN [status |-> "precedence-dependent", db |-> <<>>]
-     ELSE IF ~WellFormed(st.v, tables) THEN [status |-> "malformed", db |-> <<>>]
+     ELSE IF ~WellFormed(st.v, tables, user) THEN [status |-> "malformed", db |-> <<>>]
      ELSE IF tab = None THEN [status |-> "ok", db |-> <<>>]
      ELSE LET bad == { db \in dbs : LET p == PipelineSem(tab, db) IN p.det /\ ~SameResult(p, SqlSem(st.v, db)) } IN
           IF bad = {} THEN [status |-> "ok", db |-> <<>>]
           ELSE [status |-> "differs", db |-> LET d == CHOOSE d \in bad : TRUE IN [t \in DOMAIN d |-> d[t].rows]]
 
 PlanDesignOK ==
-  ch # <<>> => Judge(PlanTab(ch), TablesOf(PlanTab(ch)), RenderStmt(PlanTab(ch), EmptyFn), PlanDbs).status = "ok"
+  ch # <<>> => Judge(PlanTab(ch), TablesOf(PlanTab(ch)), AsNames(PlanTab(ch)), RenderStmt(PlanTab(ch), EmptyFn), PlanDbs).status = "ok"
 
 \* the antecedent of the comparison is not vacuous: on most databases the result is determined
 Determined == ch # <<>> => \E db \in PlanDbs : PipelineSem(PlanTab(ch), db).det
@@ -210,7 +216,7 @@ Trace == IF "TRACE_FILE" \in DOMAIN IOEnv THEN ndJsonDeserialize(IOEnv.TRACE_FIL
 DbsOf(fam) == IF fam = "join" THEN JoinDbs ELSE SingleDbs
 
 Verdict(rec) ==
-  LET j == Judge(rec.tab, SeqRange(rec.tables), rec.sql, DbsOf(rec.fam)) IN
+  LET j == Judge(rec.tab, SeqRange(rec.tables), SeqRange(rec.user), rec.sql, DbsOf(rec.fam)) IN
   [id |-> rec.id, ok |-> j.status = "ok", why |-> j.status, db |-> j.db,
    drift |-> rec.tab # None /\ rec.sql # RenderStmt(rec.tab, EmptyFn)]
 
